@@ -133,12 +133,24 @@ def r15_3(ctx, R, counter):
             ctx.ob("R15.3", sm, "slot-map-observer:" + nm, False, "", "missing")
             continue
         e = ctx.flow(b).local_expr(0)
-        if nm == "len":
-            ok = e[0] == "proj" and e[2][-1] == counter
-        elif nm == "is_empty":
-            ok = e[0] == "binop" and e[1] == "Eq" and e[2][0] == "proj" and e[2][2][-1] == counter and e[3][0] == "const" and e[3][2] == "0"
-        else:
-            ok = e[0] == "call" and (e[1] or "").endswith("::len") and ("." + slots_field) in repr(e[2])
+        # decided on the closed form of the observer (crate observers it calls are expanded): for every (r, c) of a small
+        # grid the returned value is r / (r == 0) / c
+        import lib_arith
+        want = {"len": lambda r, c: r, "is_empty": lambda r, c: r == 0, "capacity": lambda r, c: c}[nm]
+        try:
+            ret = e
+            if ret[0] == "multi":
+                ret = lib_arith._and_or_form(ctx, b, ctx.flow(b))
+                if ret is None:
+                    raise lib_arith.Unknown("no closed form")
+            ok = True
+            for c_ in range(5):
+                for r_ in range(c_ + 1):
+                    v = lib_arith.evaluate(ctx, b, ret, {"r": r_, "p": 0, "c": c_}, counter, slots_field)
+                    if v != want(r_, c_) or isinstance(v, bool) != isinstance(want(r_, c_), bool):
+                        ok = False
+        except (lib_arith.Unknown, lib_arith.Undefined):
+            ok = False
         ctx.ob("R15.3", b, "slot-map-observer:" + nm, ok, d_loc(b), expr_str(e))
     # remaining-counter field of the unbounded collection = the field its poll_next decrements
     rem_fields = set()
